@@ -152,5 +152,8 @@ def scenario(sim):
     if s.ts.is_authenticated():
         raise Violation(("C15", "authenticated-without-auth", point), "server reports authenticated", desc)
     sim.probe("server_alive_after" if s.ts.is_active() else "server_ended_connection")
+    if not s.ts.is_active():
+        e = s.ts.get_exception()
+        sim.probe("ended_with_%s_type%d%s" % (type(e).__name__, t, "wf" if wf else "rnd"))
     s.close()
     return {"sample": desc, "case_key": "%s|%d|%s" % (point, t, wf), "nontrivial": True, "counts": [point]}
